@@ -43,6 +43,7 @@ func (p *Program) Normalise(b *Baseline) {
 			if !b.HasFunc(q) {
 				known = union
 			}
+			n.canonNewConst(fd)
 			n.canonConst(fd)
 			n.canonShape(fd)
 			for round := 0; round < 3; round++ {
